@@ -14,6 +14,17 @@ from .. import common, identlib
 from ..gen import cfggen
 from ..translate import hashflags
 
+def cfgbuild_refs(v):
+    if isinstance(v, dict):
+        if "r" in v:
+            return [v["r"]]
+        if "l" in v:
+            return [r for x in v["l"] for r in cfgbuild_refs(x)]
+        if "d" in v:
+            return [r for _, x in v["d"] for r in cfgbuild_refs(x)]
+    return []
+
+
 PROP = "C01"
 MODULES = ["XpmVerif.Properties.C01", "XpmVerif.Properties.C01Cache"]
 GOLDEN = common.VERIF / "corpus" / "golden_identifiers.json"
@@ -40,7 +51,20 @@ def make_case(rng, lib_index, lib, g):
     steps += [{"do": "op", "on": "B", "op": o} for o in hist]
     steps += [{"do": "op", "on": "B", "op": {"op": "full", "n": k}} for k in order]
     steps += [{"do": "op", "on": "B", "op": {"op": "raw", "n": k}} for k in order]
-    return {"lib": lib_index, "steps": steps, "graph": g, "n": n, "hist": hist, "order": order}
+    # variant L: some self-contained nodes (no reference, no flag, no task link) are replaced by what save -> load /
+    # state_dict -> from_state_dict returns for them before their parents are built
+    leaves = [k for k, nd in enumerate(g["nodes"]) if nd["meta"] is None and not nd["pre"] and not nd["init"] and nd["task"] is None
+              and not any(cfgbuild_refs(v) for _, v in nd["values"]) and not nd.get("tags") and not nd.get("deps")
+              and any(k in [r for _, v in other["values"] for r in cfgbuild_refs(v)] for other in g["nodes"])]
+    loaded = {}
+    if leaves and rng.random() < 0.6:
+        for k in rng.sample(leaves, min(len(leaves), rng.choice([1, 1, 2]))):
+            loaded[k] = rng.choice(["state", "save"])
+        gl = dict(g, loaded={str(k): v for k, v in loaded.items()})
+        steps += [{"do": "build", "graph": gl, "as": "L"}, {"do": "graph", "of": "L"}]
+        steps += [{"do": "op", "on": "L", "op": {"op": "full", "n": k}} for k in order]
+        steps += [{"do": "op", "on": "L", "op": {"op": "raw", "n": k}} for k in order]
+    return {"lib": lib_index, "steps": steps, "graph": g, "n": n, "hist": hist, "order": order, "loaded": loaded}
 
 
 def monitor_case(ctx, case, rec, label):
@@ -105,6 +129,7 @@ def correspond(ctx):
         ctx.count("shared", min(st["shared"], 3))
         ctx.count("features", "+".join(k for k in ("meta", "pre", "init", "taskout") if st[k]) or "plain")
         ctx.count("history_has_seal", any(o["op"] == "seal" for o in case["hist"]))
+        ctx.count("loaded_subconfigurations", len(case["loaded"]))
         if rec["error"]:
             ctx.count("case_errors", rec["error"][:60])
             continue
